@@ -90,7 +90,8 @@ class GetInstanceRegion(Contract):
         return (est, _region_of(B) if cfg["given"] else None), {}
 
     def raises(self, a):
-        return [(ValueError, a.region is None and not hasattr(a.instance, "region_"))]
+        has = "region_" in vars(a.instance) or hasattr(type(a.instance), "region_")  # (a property is not evaluated here)
+        return [(ValueError, a.region is None and not has)]
 
     @staticmethod
     def _fitted_region(inst):
